@@ -307,7 +307,7 @@ class _StarFinderCatalog:
     def cutout_data(self):
         cutout = []
         for slc in self.slices:
-            cdata = self.data[slc]
+            cdata = self.data[slc].copy()  # do not modify the input data
             cdata[cdata < 0] = 0.0  # exclude negative pixels
             cutout.append(cdata)
         return cutout
